@@ -40,6 +40,9 @@ type Node struct {
 	outputReader *os.File
 	scriptFile   *os.File
 	done         bool
+	// executing is true from the creation of the executor for an execution
+	// until its Run has returned. Signals are delivered while it is set.
+	executing bool
 	// inFlight is true while a worker goroutine of the scheduler owns the
 	// node, i.e. from launch until its teardown has completed.
 	inFlight atomic.Bool
@@ -133,7 +136,11 @@ func (n *Node) Execute(ctx context.Context) error {
 	if err != nil {
 		return err
 	}
-	n.SetError(cmd.Run())
+	runErr := cmd.Run()
+	n.mu.Lock()
+	n.executing = false
+	n.data.State.Error = runErr
+	n.mu.Unlock()
 	if n.outputReader != nil && n.data.Step.Output != "" {
 		util.LogErr("close pipe writer", n.outputWriter.Close())
 		var buf bytes.Buffer
@@ -207,6 +214,7 @@ func (n *Node) setupExec(ctx context.Context) (executor.Executor, error) {
 		cmd.SetStderr(stdout)
 	}
 
+	n.executing = true
 	return cmd, nil
 }
 
@@ -249,7 +257,10 @@ func (n *Node) signal(sig os.Signal, allowOverride bool) {
 	n.mu.Lock()
 	defer n.mu.Unlock()
 	status := n.data.State.Status
-	if status == NodeStatusRunning && n.cmd != nil {
+	// Deliver the signal as long as the command is executing: after the first
+	// stop signal the status is already "canceled", but a process that ignores
+	// it must still receive the following signals (SIGKILL in the end).
+	if n.executing && n.cmd != nil {
 		sigsig := sig
 		if allowOverride && n.data.Step.SignalOnStop != "" {
 			sigsig = unix.SignalNum(n.data.Step.SignalOnStop)
